@@ -264,6 +264,29 @@ def fmt_defs(rows, prefix) -> str:
     return "\n".join(out) + "\n"
 
 
+def default_is_copy(rel: str, cls_name: str, param: str, source: str) -> bool:
+    """In `cls_name.__init__` of `rel`: does the `if <param> is None:` branch bind `<param>` to a NEW list made from the module-level
+    `source` (`source.copy()`, `list(source)`, `source[:]`, `[*source]`, a comprehension over it)?  False when it binds the list itself."""
+    init = G.P.find_function(G.parse(rel), cls_name, "__init__")
+    for node in ast.walk(init):
+        if isinstance(node, ast.If) and isinstance(node.test, ast.Compare) and isinstance(node.test.left, ast.Name) and node.test.left.id == param \
+                and len(node.test.ops) == 1 and isinstance(node.test.ops[0], ast.Is) and isinstance(node.test.comparators[0], ast.Constant) \
+                and node.test.comparators[0].value is None:
+            for st in node.body:
+                if isinstance(st, ast.Assign) and len(st.targets) == 1 and isinstance(st.targets[0], ast.Name) and st.targets[0].id == param:
+                    v = st.value
+                    if isinstance(v, ast.Name):
+                        if v.id == source:
+                            return False
+                        raise Broken(f"{cls_name}.__init__: default of {param} is {v.id}, not {source}")
+                    txt = ast.unparse(v)
+                    if txt in (f"{source}.copy()", f"list({source})", f"{source}[:]", f"[*{source}]", f"copy.copy({source})", f"copy({source})") \
+                            or (isinstance(v, ast.ListComp) and len(v.generators) == 1 and ast.unparse(v.generators[0].iter) == source):
+                        return True
+                    raise Broken(f"{cls_name}.__init__: default of {param} not understood: {txt[:60]}")
+    raise Broken(f"{cls_name}.__init__: no `if {param} is None:` default found")
+
+
 CHUNKS = 4
 
 
@@ -279,6 +302,8 @@ def chunked(name: str, rows: list) -> str:
 def unit_Catalogue():
     prow = py_rows()
     yrow, how = yaml_rows()
+    copies_fn = default_is_copy("secs/functions/streams_functions.py", "StreamsFunctions", "functions", "secs_streams_functions")
+    copies_di = default_is_copy("secs/data_items/data_items.py", "DataItems", "data_items", "secs_data_items")
     out = [G.HEADER.format(src="secsgem/secs/functions/_all.py, secsgem/secs/functions/sXXfYY.py, secsgem/secs/functions/base.py, secsgem/secs/functions.yaml"),
            "set_option maxRecDepth 100000\nnamespace SecsModel.Gen.Catalogue\n",
            "/-- one catalogued stream/function: the class attributes `_stream`, `_function`, `_to_host`, `_to_equipment`, `_has_reply`,",
@@ -300,9 +325,15 @@ def unit_Catalogue():
            fmt_defs(yrow, "yfmt"),
            "/-- `functions.yaml`, in file order -/",
            chunked("yaml", [fn_row(r, "yfmt") for r in yrow]),
+           "/-- `StreamsFunctions.__init__` gives every default container its OWN list (a copy of `secs_streams_functions`), so `update()`",
+           "on one container cannot change the catalogue another container, or the module, sees -/",
+           f"def containerCopiesCatalogue : Bool := {lean_bool(copies_fn)}\n",
+           "/-- the same for `DataItems.__init__` and `secs_data_items` -/",
+           f"def containerCopiesDataItems : Bool := {lean_bool(copies_di)}\n",
            "end SecsModel.Gen.Catalogue\n"]
     G.write("Catalogue", "\n".join(out))
-    G.FACTS["Catalogue"] = {"py": [{k: v for k, v in r.items()} for r in prow], "yaml": yrow, "yaml_parser": how}
+    G.FACTS["Catalogue"] = {"py": [{k: v for k, v in r.items()} for r in prow], "yaml": yrow, "yaml_parser": how,
+                            "container_copies": {"functions": copies_fn, "data_items": copies_di}}
 
 
 # ------------------------------------------------------------------------------------------------ data items
